@@ -8,6 +8,7 @@ import (
 	"net/http"
 	"sync"
 	"sync/atomic"
+	"unicode/utf8"
 
 	"github.com/lxzan/gws"
 	"github.com/renbou/grpcbridge/bridgelog"
@@ -195,7 +196,25 @@ func websocketError(err error) (code uint16, reason string) {
 		reason = err.Error()
 	}
 
-	return code, reason
+	return code, truncateReason(reason)
+}
+
+// truncateReason cuts a close reason down to the 123 bytes a close frame can carry, at a character boundary:
+// the reason of a close frame must be valid UTF-8, and a cut in the middle of a multi-byte character
+// makes clients fail the connection instead of reading the close code and the reason.
+func truncateReason(reason string) string {
+	const maxReason = 123
+
+	if len(reason) <= maxReason {
+		return reason
+	}
+
+	n := maxReason
+	for n > 0 && !utf8.RuneStart(reason[n]) {
+		n--
+	}
+
+	return reason[:n]
 }
 
 type gwsReadEvent struct {
